@@ -212,8 +212,60 @@ class TwoCalls(Subsets):
                 check_case(rev, variant, mult, list(sub), 0, acc, None, list(before))
 
 
+@core.guarded(lambda n, rev, variant, mult, shuffle, *a: dict(kind='long-chain', segments=n, reverse=rev, variant=variant, multiplier=mult, order=shuffle))
+def check_long(n, rev, variant, mult, shuffle, acc):
+    """n collinear segments 10 apart on both axes (join cost 20 x multiplier each, score 100 each): the best chain is ALL of them; far
+    more segments than the subset layers can compare with brute force"""
+    descs = [(100 + 30 * i, 20, 0, 100) for i in range(n)]
+    segs = [seg(d, rev) for d in descs]
+    order = list(range(n))
+    if shuffle == 'reversed':
+        order = order[::-1]
+    elif shuffle == 'interleaved':
+        order = order[::2] + order[1::2]
+    out = SegmentChainer(SequentialityScorer(mult, variant)).chain([segs[i] for i in order])
+    kept = [o for o in out if not o.empty]
+    found = []
+    case = dict(kind='long-chain', segments=n, reverse=rev, variant=variant, multiplier=mult, order=shuffle)
+    ids = [next(i for i, s_ in enumerate(segs) if s_ is o) for o in kept]
+    if ids != list(range(n)):
+        found.append(('not-optimal', '%d collinear segments, chain keeps %d of them: %s (every segment adds 100 and costs at most %s to join)' % (
+            n, len(ids), ids, 20 * mult), 'chain', {'strand': '-' if rev else '+', 'long': True}))
+    if acc is not None:
+        acc.evals += 1
+        acc.transitions += n * (n - 1) // 2
+        acc.state(('long', n, tuple(ids) == tuple(range(n))))
+        acc.nontriv(('long', n, rev, variant, mult, shuffle))
+        for f in found:
+            acc.viol(f[0], case, f[1], f[2], f[3])
+        acc.sample(case)
+    return found
+
+
+class LongChains(core.Layer):
+    name = 'long-chains'
+    optional = False
+
+    def __init__(self):
+        self.cases = [(n, rev, variant, mult, sh) for n in (9, 16, 17, 18, 24, 40) for rev in (False, True) for variant in (0, 1) for mult in (1, 0.5)
+                      for sh in ('sorted', 'reversed', 'interleaved')]
+        self.bounds = dict(segments=[9, 16, 17, 18, 24, 40], input_orders=['sorted', 'reversed', 'interleaved'], variants=[0, 1], multipliers=[1, 0.5])
+        self.rule = '%d chains of 9-40 collinear segments (analytic optimum: all of them)' % len(self.cases)
+
+    def nblocks(self):
+        return 6
+
+    def run_block(self, b, acc):
+        for c in self.cases[b::6]:
+            acc.seq += 1
+            check_long(*c, acc)
+
+    def replay(self, case):
+        return check_long(case['segments'], case['reverse'], case['variant'], case['multiplier'], case['order'], None)
+
+
 def layers(tier, seed):
     if tier == 'quick':
-        return [Subsets('k<=4', 1, 4, 3, 2), Subsets('k=5', 5, 5, 0, 0), TwoCalls('seq2:k<=3', 24, 3), Subsets('k=6', 6, 6, 0, 0)]
-    return [Subsets('k<=4', 1, 4, 4, 3), Subsets('k=5', 5, 5, 0, 0), TwoCalls('seq2:k<=3', 120, 3), Subsets('k=6', 6, 6, 0, 0), Subsets('k=7', 7, 7, 0, 0),
+        return [Subsets('k<=4', 1, 4, 3, 2), Subsets('k=5', 5, 5, 0, 0), TwoCalls('seq2:k<=3', 24, 3), LongChains(), Subsets('k=6', 6, 6, 0, 0)]
+    return [Subsets('k<=4', 1, 4, 4, 3), Subsets('k=5', 5, 5, 0, 0), TwoCalls('seq2:k<=3', 120, 3), LongChains(), Subsets('k=6', 6, 6, 0, 0), Subsets('k=7', 7, 7, 0, 0),
             Subsets('k=8', 8, 8, 0, 0, optional=True)]
